@@ -80,8 +80,12 @@ Definition check_load (src dst res : named Z) (err : bool) : bool :=
 (* the fresh values of the re-created network are not observable; whatever they were, the result is a
    fixed point of [preserve before] (Proofs.preserve_idem_lemma), and a fixed point keeps the common
    slices (Proofs.fixpoint_keeps_common_lemma) *)
+(* whenever the shrinking function is applicable to the observed pair it gives the same answer
+   (Proofs.shrink_eq_preserve_lemma, validated here on real re-creations) *)
+Definition shrink_agrees (before after : named Z) : bool :=
+  match shrink_preserve before after with Some r => named_eqb r after | None => true end.
 Definition check_step (before after : named Z) : bool :=
-  okb before && okb after && named_eqb (preserve before after) after.
+  okb before && okb after && named_eqb (preserve before after) after && shrink_agrees before after.
 (* architecture unchanged: the model predicts the old parameters exactly *)
 Definition check_same (before after : named Z) : bool :=
   okb before && okb after && same_sigb before after && named_eqb (preserve before after) before
@@ -103,3 +107,11 @@ Fixpoint check_chain (cur : named Z) (steps : list step) : bool :=
   | Clone c :: r => check_clone cur c && check_chain c r
   | Rand a :: r => same_sigb cur a && check_chain a r
   end.
+
+(* ---- train / eval flag: the module was put in evaluation mode before every operation; after a
+        re-creation / clone the model (recreate_state / clone_state) predicts the flag of the old module
+        for the module and, because train() / __setattr__ propagate, for every sub-module ------------- *)
+Definition check_mode (old_training : bool) (observed_module observed_all_submodules_eval : bool) : bool :=
+  let predicted := st_training (clone_state {| st_named := @nil (string * param Z); st_training := old_training |}
+                                            {| st_named := []; st_training := true |}) in
+  Bool.eqb observed_module predicted && Bool.eqb observed_all_submodules_eval (negb predicted).
